@@ -66,7 +66,7 @@ func (s *streamWS) SendMsg(v interface{}) error {
 
 	cur := reply.ProtoReflect()
 	for _, fd := range s.method.resp {
-		cur = cur.Mutable(fd).Message()
+		cur = cur.Mutable(fieldOf(cur, fd)).Message()
 	}
 	msg := cur.Interface()
 
@@ -92,7 +92,7 @@ func (s *streamWS) RecvMsg(m interface{}) error {
 	if s.method.hasBody {
 		cur := args.ProtoReflect()
 		for _, fd := range s.method.body {
-			cur = cur.Mutable(fd).Message()
+			cur = cur.Mutable(fieldOf(cur, fd)).Message()
 		}
 
 		msg := cur.Interface()
